@@ -9,6 +9,7 @@ CONFIG = {
         allowed=[DERIVE_ALLOWED, r'^external_body pub fn from', r'^assume_specification pub assume_specification<T> \[<\[T\]>',
                  r'^uninterp spec pub uninterp spec fn (class7|tables_ok)'],
         stubs=['MadeHand::from  (contracts/made_hand_from.vc, proved in unit EVAL / C01)'],
+        callees=[('eval', None)],
         assumptions=[
             DERIVE,
             'callee contract MadeHand::from (C01) is assumed here and proved in unit EVAL',
@@ -53,15 +54,15 @@ ITER_SAMPLES = [
     {'obligation': 'lemma_orbit_covers', 'clause': 'skipped_or_visited(g, a, k, tt, rt) && cur_ok(g, q) && rank(a) <= rank(q) < rank(a) + k ==> q == adv(a, lens, rank(q) - rank(a))'},
 ]
 
-CONFIG['C02'] = dict(unit='iter', allowed=ITER_ALLOWED, assumptions=ITER_ASSUME, samples=ITER_SAMPLES,
+CONFIG['C02'] = dict(unit='iter', allowed=ITER_ALLOWED, assumptions=ITER_ASSUME, samples=ITER_SAMPLES, callees=[('showdown', CONFIG['C03']['allowed'])],
     stubs=['Showdown::new (contracts/showdown_new.vc, proved in unit SHOWDOWN / C03)'],
     kinds=r'postcondition|invariant|assertion',
     search=[['iter-search', '{seed}', '{n}', '{marker}', 'c02']], search_n={'quick': 240, 'thorough': 2400})
-CONFIG['C04'] = dict(unit='iter', allowed=ITER_ALLOWED, assumptions=ITER_ASSUME, samples=ITER_SAMPLES,
+CONFIG['C04'] = dict(unit='iter', allowed=ITER_ALLOWED, assumptions=ITER_ASSUME, samples=ITER_SAMPLES, callees=[('showdown', CONFIG['C03']['allowed'])],
     stubs=['Showdown::new (contracts/showdown_new.vc, proved in unit SHOWDOWN / C03)'],
     kinds=r'postcondition|invariant|assertion',
     search=[['iter-search', '{seed}', '{n}', '{marker}', 'c04']], search_n={'quick': 240, 'thorough': 2400})
-CONFIG['C08'] = dict(unit='iter', allowed=ITER_ALLOWED, assumptions=ITER_ASSUME, samples=ITER_SAMPLES,
+CONFIG['C08'] = dict(unit='iter', allowed=ITER_ALLOWED, assumptions=ITER_ASSUME, samples=ITER_SAMPLES, callees=[('showdown', CONFIG['C03']['allowed'])],
     stubs=['Showdown::new (contracts/showdown_new.vc, proved in unit SHOWDOWN / C03)'],
     kinds=r'overflow|precondition|decreases|termination|recursion',
     search=[['iter-search', '{seed}', '{n}', '{marker}', 'c08'], ['c08big-search']], search_n={'quick': 240, 'thorough': 2400})
@@ -78,7 +79,7 @@ C16_CFG = dict(unit='scopes',
     search=[['scopes-search', '{seed}', '{n}']], search_n={'quick': 20000, 'thorough': 60000})
 
 RANGE_ALLOWED = [DERIVE_ALLOWED, r'^external_body pub fn (into_iter|f32_eq)', r'^uninterp spec pub uninterp spec fn f32_eq_spec', r'axiom_pair_key_models']
-CONFIG['C12'] = dict(unit='range', allowed=RANGE_ALLOWED,
+CONFIG['C12'] = dict(unit='range', allowed=RANGE_ALLOWED, callees=[('token', [DERIVE_ALLOWED, r'^external_body pub fn into_iter'])],
     stubs=['RankPair::into_iter (contracts/rankpair_into_iter.vc: the 6/4/12 combos, proved on the real body in unit TOKEN)',
            'RankRange::into_iter (contiguous run of ranks; proved for all ordered endpoint pairs by Kani harness c13_rank_range)'],
     assumptions=[
@@ -144,7 +145,7 @@ EXTRA_SEARCH = {
 from . import p_kani
 
 TOKEN_ALLOWED = [DERIVE_ALLOWED, r'^external_body pub fn into_iter']
-TOK_MEANING = ['tok_meaning_pockets', 'tok_meaning_rank_pairs', 'tok_meaning_card_pair', 'tok_weight_carried', 'tok_ok_reachable']
+TOK_MEANING = ['tok_meaning_pockets', 'tok_meaning_rank_pairs', 'tok_meaning_card_pair', 'tok_weight_carried', 'tok_weight_single_rank_pair', 'tok_weight_plus_rank_pair', 'tok_weight_span_rank_pair', 'tok_weight_plus_pocket', 'tok_weight_span_pocket', 'tok_weight_card_pair', 'tok_ok_reachable']
 TOK_TOTAL_Q = ['tok_total_parse_6', 'tok_total_parse_6_multibyte', 'tok_total_parse_9', 'tok_total_parse_9_multibyte', 'tok_ok_reachable']
 TOK_TOTAL_T = TOK_TOTAL_Q + ['tok_total_parse_12', 'tok_total_parse_12_multibyte']
 
@@ -192,7 +193,7 @@ MULTI['C05'] = dict(
     parts=[_k_token('TOKEN-STR', TOK_MEANING), _v('token', TOKEN_ALLOWED), _v('list', LIST_ALLOWED)],
     assumptions=TOKEN_ASSUME + [
         'Verus (unit TOKEN): HandRangeToken::into_iter on a well-formed token returns exactly expand_combos(t) in order, each with the token\'s weight; RankPair::into_iter returns combos_seq(rp); lemma_combos_pocket/suited/ofsuit: combos_seq is the first-principles suit enumeration (6 / 4 / 12)',
-        'Kani: for all ranks / suits (symbolic) each of the 7 token shapes without weight parses to the value it denotes with weight 1; \':0\' and \':1\' are carried, \':1.5\' is rejected',
+        'Kani: for all ranks / suits (symbolic) each of the 7 token shapes without weight parses to the value it denotes with weight 1; every shape carries a \':0.5\' suffix (the value parse_probability gives for that suffix -- one symbolic f32 in [0,1] under the abstraction), \':1\' is carried, \':1.5\' is rejected',
     ] + LIST_ASSUME,
     bounded=['weights other than none / :0 / :1 / :1.5 are covered only through the parse_probability abstraction'],
     not_decided=['what String::replace(" ", "") and str::split(",") return (std, assumed to strip blanks and split at commas)'],
